@@ -131,6 +131,23 @@ func c03Case(c *fw.Case) {
 		c.Failf("id-form", w, "ID %q is not namespace:suffix", op.ID)
 	}
 	c.Sample(map[string]interface{}{"request": string(b.Request), "did": op.ID})
+	// the same request denotes the same DID whatever the parser was asked in between: here a create it has to refuse because one
+	// of its hashes uses an algorithm that is not configured
+	{
+		bad := *spec
+		bad.RecoveryCommitment = unsupportedHash(r)
+		if _, berr := st.Parser.Parse(ns, bad.Build(r).Request); berr == nil {
+			c.Failf("unconfigured-algorithm-accepted", w, "create with a recovery commitment of an algorithm that is not configured was accepted")
+			return
+		}
+		c.Count("reparsed-after-refusal", 1)
+		c.Evals(1)
+		if again, aerr := st.Parser.Parse(ns, b.Request); aerr != nil || again.UniqueSuffix != op.UniqueSuffix {
+			w["suffix"], w["suffix_after_refusal"], w["err"] = op.UniqueSuffix, fmt.Sprint(again), fmt.Sprint(aerr)
+			c.Failf("same-request-other-did-after-refusal", w, "the same create request parsed again after the parser refused another request denotes another DID (or is refused): %v", aerr)
+			return
+		}
+	}
 	// re-serializations
 	for i := 0; i < 8; i++ {
 		sp := gen.Spell(r, oracle.MustGeneric(b.ReqObj), gen.AllSpell)
